@@ -210,7 +210,13 @@ class Decomp(Suite):
                 out.append({"class": "named" + ("" if rt == 1 else "/nonsoma-root"), "tree": t})
                 if n >= 2:
                     out.append({"class": "named/as-branch-tree", "tree": t, "derive": AS_BRANCH_TREE[(n + rt) % 3]})
-        return out + self.coincident_cases(rng, tier, widen) + self.deep_cases(rng, tier, widen)
+        # trees with their OWN column-name table (the public `names=` option): the decomposition and the branch tree of such a tree
+        own = []
+        for j, c in enumerate([c for c in out if c["class"].startswith("named") or c["class"].startswith("all-n4")][: 12 if tier == "quick" and not widen else 40]):
+            if c.get("derive") in ("copy-edit",):
+                continue                     # that derivation edits ndata["pid"] by its default name
+            own.append(dict(c, tree=dict(c["tree"], names=gen.OWN_NAMES[j % len(gen.OWN_NAMES)]), **{"class": c["class"] + "/own-names"}))
+        return out + own + self.coincident_cases(rng, tier, widen) + self.deep_cases(rng, tier, widen)
 
     def run(self, case):
         from swcgeom.core import BranchTree
@@ -273,7 +279,7 @@ class Decomp(Suite):
             res["bifurcations_alias"] = [int(n.id) for n in t.get_bifurcations()]
             if n_eff > 1:
                 lp = ToLongestPath(detach=False)(t)
-                res["longest"] = {"ids": [int(v) for v in lp.get_ndata("id")], "length": float(lp.length())}
+                res["longest"] = {"ids": [int(v) for v in lp.get_ndata(lp.names.id)], "length": float(lp.length())}
                 lpd = ToLongestPath()(t)
                 res["longest_detached_xyz"] = np.asarray(lpd.xyz()).astype(float).tolist()
             try:
